@@ -1,4 +1,4 @@
-From MST Require Import Base TreeM Diff Spec TreeRanges C03 Intervals DiffWalk.
+From MST Require Import Base TreeM Diff Spec TreeRanges HashInj Intervals DiffWalk.
 
 Section DT.
 Variable digest V : Type.
